@@ -67,7 +67,10 @@ pub fn diff_text(text: &[u8]) -> Result<Diff, Violation> {
                 )));
             }
         }
-        (Ok(_), Ok(Err(e))) => return Err(v(format!("tokenizer rejects a lexically valid text: {}", e))),
+        (Ok(_), Ok(Err(e))) => {
+            let t = String::from_utf8_lossy(text);
+            return Err(front::rejection(&t, "tokenizer: lexically valid text", &e.to_string(), &cj));
+        }
         (Err(e), Ok(Ok(_))) => return Err(v(format!("tokenizer accepts a text the lexical rules reject ({})", e))),
         (Err(_), Ok(Err(_))) => {}
     }
@@ -101,7 +104,10 @@ pub fn diff_text(text: &[u8]) -> Result<Diff, Violation> {
             rast::from_symbolic(&pf.bdd).map(|a| rprint::plain(&a))
         ))
         .sig("accepted-non-sentence")),
-        (Ok(a), Ok(Err(e))) => Err(v(format!("sentence `{}` rejected: {}", rprint::plain(&a), e))),
+        (Ok(a), Ok(Err(e))) => {
+            let t = String::from_utf8_lossy(text);
+            Err(front::rejection(&t, &format!("sentence `{}`", rprint::plain(&a)), &e, &cj))
+        }
         (Ok(a), Ok(Ok(pf))) => {
             let got = rast::from_symbolic(&pf.bdd).map_err(|e| v(e))?;
             if got != a {
